@@ -248,6 +248,73 @@ theorem finish_extracted_stages_race_free (fs : List BFeature) :
   · exact (finish_stage_race_free fs).1
   · exact (finish_stage_race_free fs).2
 
+/-! ## T3, wide: every mutex-carrying struct of `ingest`, `ingest/compact`, `search`
+
+`wideTable` lists, for every method of every struct that has a `sync.Mutex`/`sync.RWMutex` field, every access
+to the struct's other fields with the lock state at that point.  The obligation: an access is under the
+struct's lock, or the field is immutable after construction (listed here with the reason), or the method is a
+writer / build-time accessor exempt by contract (listed with the reason), or the method is one of the lock-free
+helpers — which are called only from their own struct and, from its other methods, only with the lock held.  A
+NEW unlocked access to any field of any such struct, a new mutex-carrying struct, a write to an "immutable" field
+or a helper called without the lock breaks one of these `by decide` obligations. -/
+
+/-- (struct, field, why it is never written once the object is shared) -/
+def immutableFields : List (String × String × String) := [
+  ("compact.FeaturesByID", "features", "feature blocks are appended by Merge only (writer by contract); readers never write"),
+  ("compact.FeaturesByID", "base", "set by NewFeaturesByID"),
+  ("compact.World", "byID", "set by NewWorld / NewWorldWithBase"),
+  ("compact.World", "indices", "appended by Merge only (writer by contract)"),
+  ("compact.World", "status", "extended by Merge only (writer by contract)"),
+  ("compact.marshalledArea", "id", "set by newAreaFromBuffer"),
+  ("compact.marshalledArea", "area", "set by newAreaFromBuffer"),
+  ("compact.marshalledArea", "fb", "set by newAreaFromBuffer"),
+  ("compact.marshalledArea", "byID", "set by newAreaFromBuffer"),
+  ("compact.wrappedMarshalledPhysicalFeature", "byID", "set by newWrappedPhysicalFeatureFromBuffer"),
+  ("compact.Validator", "locations", "set by NewValidator")]
+
+/-- (struct, method, why its unlocked accesses are outside the property) -/
+def exemptMethods : List (String × String × String) := [
+  ("compact.FeaturesByID", "Merge", "writer by contract: the property is about readers with no writer"),
+  ("compact.World", "Merge", "writer by contract; takes World.lock against other Merges"),
+  ("compact.FeatureIDs", "At", "read after the parallel Append phase of the compact build"),
+  ("compact.FeatureIDs", "Len", "sort.Interface, used after the parallel Append phase"),
+  ("compact.FeatureIDs", "Less", "sort.Interface, used after the parallel Append phase"),
+  ("compact.FeatureIDs", "Swap", "sort.Interface, used after the parallel Append phase")]
+
+def isImmutable (a : Access) : Bool := immutableFields.any (fun p => p.1 == a.typ && p.2.1 == a.field)
+def isExempt (a : Access) : Bool := exemptMethods.any (fun p => p.1 == a.typ && p.2.1 == a.method)
+def isWriteKind (a : Access) : Bool := a.kind == "write" || a.kind == "addr"
+
+/-- the lock-free helpers: methods that touch a mutable field without taking the lock themselves -/
+def wideHelpers : List String := [
+  "compact.Validator.validateArea", "compact.Validator.validateQueue",
+  "compact.marshalledArea.featureWithLock", "compact.marshalledArea.fillGeometry"]
+
+def isHelperRoot (a : Access) : Bool := wideHelpers.contains (a.typ ++ "." ++ a.method)
+
+theorem wide_structs_expected : wideStructs =
+    ["ingest.MutableWorlds", "ingest.watcher", "compact.FeatureIDs", "compact.FeaturesByID", "compact.NamespacedCounts",
+     "compact.Validator", "compact.World", "compact.marshalledArea", "compact.wrappedMarshalledPhysicalFeature"] := by
+  decide
+
+/-- **Every access to a field of a mutex-carrying struct is under that struct's lock**, or the field is
+immutable after construction, or the method is exempt by contract, or it is a lock-free helper. -/
+theorem wide_lock_discipline :
+    wideTable.all (fun a => a.locked || isImmutable a || isExempt a || isHelperRoot a) = true := by decide
+
+/-- the "immutable" fields are indeed never written or address-taken outside the exempt writers -/
+theorem wide_immutable_not_written :
+    wideTable.all (fun a => !(isImmutable a && isWriteKind a) || isExempt a) = true := by decide
+
+/-- the lock-free helpers are reached only from their own struct, and from its other methods only with the lock
+held; the helper list is exactly the set of methods with an unlocked access to a mutable field -/
+theorem wide_helpers_called_locked :
+    wideSelfCalls.all (fun a => !wideHelpers.contains (a.typ ++ "." ++ a.field) || isHelperRoot a || a.locked) = true ∧
+    wideForeignCalls = [] ∧
+    (wideTable.filter (fun a => !(a.locked || isImmutable a || isExempt a))).all isHelperRoot = true ∧
+    wideHelpers.all (fun h => wideTable.any (fun a => (a.typ ++ "." ++ a.method) == h && !(a.locked || isImmutable a))) = true := by
+  decide
+
 /-! ## from the table to programs -/
 
 def cellId (field : String) : Nat :=
